@@ -21,6 +21,22 @@
 (* expiry alone.  When expired records are physically deleted is not       *)
 (* observable through the statement: both sides only look at live records. *)
 (*                                                                         *)
+(* Concurrency.  Requests are served concurrently, so a logout is not an  *)
+(* instant: it is CALLED, takes effect (LogoutDo -- its linearisation      *)
+(* point) and RETURNS, and other requests -- in particular one carrying    *)
+(* the very token being logged out -- may be served at any point in        *)
+(* between.  Such a request may still be authenticated (it came first) or  *)
+(* not, and if it came first it may prolong the session; but once the      *)
+(* logout has returned the token is gone from memory AND from the file,    *)
+(* whatever ran in between, so no later request and no restart brings it   *)
+(* back.  A restart (crash) between call and return loses the logout or    *)
+(* finds it done.  TLC explores all these interleavings; checks/c12.py     *)
+(* composes the call/do/ret edges into the outcomes admitted for a         *)
+(* sequential logout and for a logout racing one request, and the harness  *)
+(* forces such races on the real code by making both arrive while a        *)
+(* resource they need (the sessions mutex or the database's write          *)
+(* transaction) is busy.                                                   *)
+(*                                                                         *)
 (* Token names are recycled once dead everywhere (the real tokens are      *)
 (* fresh random values each time), so histories of any length are covered  *)
 (* with a few names.  As in RateLimit.tla the model is explored modulo     *)
@@ -75,16 +91,18 @@ VARIABLES
     issued,     \* ghost: tokens handed out by a login (current incarnation of the name)
     loggedOut,  \* ghost: issued tokens that were logged out
     expired,    \* ghost: issued tokens whose expiry has been reached
+    lo,         \* token -> progress of a logout request: "idle", "called", "done"
     out         \* last step: [act, t, res]
 
-vars == <<ttl, mem, db, clock, issued, loggedOut, expired, out>>
+vars == <<ttl, mem, db, clock, issued, loggedOut, expired, lo, out>>
 
 NoOut == [act |-> "none", t |-> "", res |-> "none"]
 Store == [mem |-> mem, db |-> db]
 
 RelE(e) == IF e = 0 THEN 0 ELSE e - clock
-Proj == [mem |-> [t \in Tokens |-> RelE(mem[t])], db |-> [t \in Tokens |-> RelE(db[t])]]
+Proj == [mem |-> [t \in Tokens |-> RelE(mem[t])], db |-> [t \in Tokens |-> RelE(db[t])], lo |-> lo]
 View == <<ttl, Proj, issued, loggedOut, expired, out>>
+Idle == \A t \in Tokens : lo[t] = "idle"
 
 Emit(act, dstProj, o) ==
     PrintT(<<"@@V", ToJson([m |-> "AU", ttl |-> ttl, src |-> Proj, act |-> act,
@@ -96,6 +114,7 @@ Init ==
     /\ db = [t \in Tokens |-> 0]
     /\ clock = 0
     /\ issued = {} /\ loggedOut = {} /\ expired = {}
+    /\ lo = [t \in Tokens |-> "idle"]
     /\ out = NoOut
 
 Dead(t) == t \in loggedOut \cup expired
@@ -104,13 +123,13 @@ Dead(t) == t \in loggedOut \cup expired
 \* never used or its previous incarnation is dead and gone.
 Login(t) ==
     /\ (t \notin issued \/ Dead(t))
-    /\ mem[t] = 0 /\ db[t] = 0
+    /\ mem[t] = 0 /\ db[t] = 0 /\ lo[t] = "idle"
     /\ LET s2 == LoginEffect(Store, t, clock, ttl) IN mem' = s2.mem /\ db' = s2.db
     /\ issued' = issued \cup {t}
     /\ loggedOut' = loggedOut \ {t}
     /\ expired' = expired \ {t}
     /\ out' = [act |-> "login", t |-> t, res |-> "ok"]
-    /\ UNCHANGED <<ttl, clock>>
+    /\ UNCHANGED <<ttl, clock, lo>>
     /\ Emit([k |-> "login", t |-> t, d |-> 0], Proj', "ok")
 
 \* A request to a protected route carrying token t (issued or not).
@@ -118,15 +137,33 @@ Use(t) ==
     \E o \in UseEffects(Store, t, clock, ttl) :
         /\ mem' = o.st.mem /\ db' = o.st.db
         /\ out' = [act |-> "use", t |-> t, res |-> o.res]
-        /\ UNCHANGED <<ttl, clock, issued, loggedOut, expired>>
+        /\ UNCHANGED <<ttl, clock, issued, loggedOut, expired, lo>>
         /\ Emit([k |-> "use", t |-> t, d |-> 0], Proj', o.res)
 
-Logout(t) ==
+\* A logout request (one at a time is enough for the races of interest).
+LogoutCall(t) ==
+    /\ Idle
+    /\ lo' = [lo EXCEPT ![t] = "called"]
+    /\ out' = [act |-> "lcall", t |-> t, res |-> "none"]
+    /\ UNCHANGED <<ttl, mem, db, clock, issued, loggedOut, expired>>
+    /\ Emit([k |-> "lcall", t |-> t, d |-> 0], Proj', "none")
+
+\* Its effect: the token leaves memory and the file in one indivisible step.
+LogoutDo(t) ==
+    /\ lo[t] = "called"
     /\ LET s2 == LogoutEffect(Store, t) IN mem' = s2.mem /\ db' = s2.db
     /\ loggedOut' = loggedOut \cup ({t} \cap issued)
-    /\ out' = [act |-> "logout", t |-> t, res |-> "ok"]
+    /\ lo' = [lo EXCEPT ![t] = "done"]
+    /\ out' = [act |-> "ldo", t |-> t, res |-> "none"]
     /\ UNCHANGED <<ttl, clock, issued, expired>>
-    /\ Emit([k |-> "logout", t |-> t, d |-> 0], Proj', "ok")
+    /\ Emit([k |-> "ldo", t |-> t, d |-> 0], Proj', "none")
+
+LogoutRet(t) ==
+    /\ lo[t] = "done"
+    /\ lo' = [lo EXCEPT ![t] = "idle"]
+    /\ out' = [act |-> "lret", t |-> t, res |-> "ok"]
+    /\ UNCHANGED <<ttl, mem, db, clock, issued, loggedOut, expired>>
+    /\ Emit([k |-> "lret", t |-> t, d |-> 0], Proj', "ok")
 
 Tick(d) ==
     /\ clock' = clock + d
@@ -134,17 +171,18 @@ Tick(d) ==
     /\ expired' = expired \cup {t \in issued : \/ mem[t] # 0 /\ mem[t] <= clock'
                                                \/ db[t] # 0 /\ db[t] <= clock'}
     /\ out' = [act |-> "tick", t |-> "", res |-> "none"]
-    /\ UNCHANGED <<ttl, issued, loggedOut>>
+    /\ UNCHANGED <<ttl, issued, loggedOut, lo>>
     /\ Emit([k |-> "tick", t |-> "", d |-> d], Proj', "none")
 
 Restart ==
     /\ mem' = RestartEffect(Store, clock).mem
+    /\ lo' = [t \in Tokens |-> "idle"]       \* requests in progress die with the process
     /\ out' = [act |-> "restart", t |-> "", res |-> "none"]
     /\ UNCHANGED <<ttl, db, clock, issued, loggedOut, expired>>
     /\ Emit([k |-> "restart", t |-> "", d |-> 0], Proj', "none")
 
 Next ==
-    \/ \E t \in Tokens : Login(t) \/ Use(t) \/ Logout(t)
+    \/ \E t \in Tokens : Login(t) \/ Use(t) \/ LogoutCall(t) \/ LogoutDo(t) \/ LogoutRet(t)
     \/ \E d \in 1..MaxTick : Tick(d)
     \/ Restart
 
@@ -160,9 +198,13 @@ ShouldAuthenticate(t) == t \in issued /\ t \notin loggedOut /\ t \notin expired
 TokenValidOnlyBetween ==
     out.act = "use" => (out.res = "ok" <=> ShouldAuthenticate(out.t))
 
-\* A logged-out token is gone from memory and from the file: no request and
-\* no restart can bring it back.
+\* A logged-out token is gone from memory and from the file: no request --
+\* not even one served while the logout was in progress -- and no restart can
+\* bring it back.
 LogoutIsPersistent == \A t \in loggedOut : mem[t] = 0 /\ db[t] = 0
+
+\* When a logout returns, the token does not authenticate any more.
+LogoutReturnsDone == out.act = "lret" => ~ShouldAuthenticate(out.t) /\ mem[out.t] = 0 /\ db[out.t] = 0
 
 \* The same for a token whose expiry was reached.
 ExpiryIsPersistent == \A t \in expired : mem[t] = 0 /\ db[t] = 0
